@@ -371,6 +371,9 @@ pub enum Op {
 	/// Column administration on the closed database; with `true` the call is made on a copy of the
 	/// directory that still has unreplayed logs.
 	Admin(AdminOp, bool),
+	/// Migrate the database to other column options (hash columns only). `dest`: per column the
+	/// new kind name and compression. The run continues on the migrated database.
+	Migrate { dest: Vec<(String, u8)>, overwrite: bool, force: Vec<u8>, pending: bool },
 }
 
 #[derive(Clone, Debug, PartialEq)]
@@ -501,6 +504,9 @@ impl Op {
 			Op::LockTree(c, k) => json!({"op": "locktree", "col": c, "key": k}),
 			Op::UnlockTree(c, k) => json!({"op": "unlocktree", "col": c, "key": k}),
 			Op::TreeHandle(c, k) => json!({"op": "treehandle", "col": c, "key": k}),
+			Op::Migrate { dest, overwrite, force, pending } => json!({"op": "migrate",
+				"dest": dest.iter().map(|(k, c)| json!([k, c])).collect::<Vec<_>>(),
+				"overwrite": overwrite, "force": force, "pending": pending}),
 			Op::Admin(a, pending) => match a {
 				AdminOp::AddColumn(k) => json!({"op": "admin", "what": "add", "kind": k, "pending": pending}),
 				AdminOp::DropLastColumn => json!({"op": "admin", "what": "droplast", "pending": pending}),
@@ -584,6 +590,12 @@ impl Op {
 				Op::UnlockTree(j["col"].as_u64().unwrap() as u8, j["key"].as_u64().unwrap() as usize),
 			"treehandle" =>
 				Op::TreeHandle(j["col"].as_u64().unwrap() as u8, j["key"].as_u64().unwrap() as usize),
+			"migrate" => Op::Migrate {
+				dest: j["dest"].as_array().unwrap().iter().map(|e| (e[0].as_str().unwrap().to_string(), e[1].as_u64().unwrap() as u8)).collect(),
+				overwrite: j["overwrite"].as_bool().unwrap(),
+				force: j["force"].as_array().unwrap().iter().map(|x| x.as_u64().unwrap() as u8).collect(),
+				pending: j["pending"].as_bool().unwrap(),
+			},
 			"admin" => Op::Admin(match j["what"].as_str().unwrap() {
 				"add" => AdminOp::AddColumn(j["kind"].as_str().unwrap().to_string()),
 				"droplast" => AdminOp::DropLastColumn,
@@ -618,6 +630,7 @@ impl Op {
 			Op::UnlockTree(..) => "unlocktree",
 			Op::TreeHandle(..) => "treehandle",
 			Op::Admin(..) => "admin",
+			Op::Migrate { .. } => "migrate",
 		}
 	}
 }
